@@ -617,6 +617,75 @@ async fn parked_reply_case(rep: &mut Report, tr: Transport, sndtimeo_ms: i32) {
   let _ = tokio::time::timeout(Duration::from_secs(10), b_ctx.term()).await;
 }
 
+/// "Any other call fails ... and changes nothing" also covers a send() that is REFUSED: a REQ whose request could not be
+/// queued (the pipe to the peer is at its high-water mark; SNDTIMEO 0 -> would-block, >0 -> timeout) has not sent, so it is
+/// still the sender's turn: recv() must be rejected as invalid-state at once (not wait for a reply to a request that never
+/// left) and the retry must be refused the same way again (not as invalid-state). The REP never reads, the REQ gives up on
+/// each reply after RCVTIMEO, so abandoned requests fill the pipe.
+async fn refused_send_case(rep: &mut Report, tr: Transport, sndtimeo: i32) {
+  let ctx = util::new_ctx();
+  let server = ctx.socket(SocketType::Rep).unwrap();
+  util::set_i32(&server, opt::RCVHWM, 2).await;
+  let Ok(ep) = util::bind_fresh(&server, tr).await else {
+    rep.inconclusive("bind".to_string());
+    return;
+  };
+  let req = ctx.socket(SocketType::Req).unwrap();
+  util::set_i32(&req, opt::SNDHWM, 2).await;
+  util::set_i32(&req, opt::SNDTIMEO, sndtimeo).await;
+  util::set_i32(&req, opt::RCVTIMEO, 10).await;
+  let _ = req.connect(&ep).await;
+  tokio::time::sleep(Duration::from_millis(150)).await;
+  let cfg = format!("{} SNDTIMEO={} SNDHWM=2 RCVHWM=2 RCVTIMEO=10", tr.name(), sndtimeo);
+  let big = if tr == Transport::Inproc { 16 } else { 256 * 1024 };
+  let mut accepted = 0usize;
+  let mut refused: Option<String> = None;
+  for i in 0..400usize {
+    let mut body = format!("req-{i}").into_bytes();
+    body.resize(big, b'.');
+    match req.send(util::msg(body, false)).await {
+      Ok(()) => {
+        accepted += 1;
+        let _ = req.recv().await; // nobody answers: Timeout, after which rzmq lets the REQ send again
+      }
+      Err(e) => {
+        refused = Some(util::err_kind(&e));
+        break;
+      }
+    }
+  }
+  rep.case(&("refused", tr, sndtimeo, accepted), true);
+  let Some(refused) = refused else {
+    rep.sample(json!({"refused_send": "never refused in 400 requests", "config": cfg}));
+    let _ = tokio::time::timeout(Duration::from_secs(10), ctx.term()).await;
+    return;
+  };
+  if refused.contains("InvalidState") {
+    // the previous recv() did not time out cleanly - not the situation under test
+    rep.sample(json!({"refused_send": "first refusal was invalid-state", "config": cfg, "accepted": accepted}));
+    let _ = tokio::time::timeout(Duration::from_secs(10), ctx.term()).await;
+    return;
+  }
+  util::set_i32(&req, opt::RCVTIMEO, 1500).await;
+  let t0 = std::time::Instant::now();
+  let r = req.recv().await;
+  let took = t0.elapsed();
+  let recv_desc = r.as_ref().map(|_| "Ok".to_string()).unwrap_or_else(|e| util::err_kind(e));
+  let retry1 = req.send(util::msg(b"retry-1".to_vec(), false)).await.map_err(|e| util::err_kind(&e));
+  let retry2 = req.send(util::msg(b"retry-2".to_vec(), false)).await.map_err(|e| util::err_kind(&e));
+  let bad_recv = !recv_desc.contains("InvalidState");
+  let bad_retry = [&retry1, &retry2].iter().any(|r| matches!(r, Err(e) if e.contains("InvalidState")));
+  rep.sample(json!({"refused_send": {"config": cfg, "accepted_before_refusal": accepted, "refusal": refused, "recv_after": recv_desc, "recv_ms": took.as_millis() as u64, "retry1": format!("{:?}", retry1), "retry2": format!("{:?}", retry2)}}));
+  if bad_recv || bad_retry {
+    rep.violation(
+      format!("refused_send_advanced_req_state|{}", tr.name()),
+      format!("{}: after {} accepted requests send() was refused with {}; then recv() returned {} after {} ms (must be invalid-state: nothing was sent), retry #1 {:?}, retry #2 {:?} (must not be invalid-state: it is still the sender's turn)", cfg, accepted, refused, recv_desc, took.as_millis(), retry1, retry2),
+      json!({"config": cfg, "accepted": accepted, "refusal": refused, "recv_after": recv_desc, "retry1": format!("{:?}", retry1), "retry2": format!("{:?}", retry2)}),
+    );
+  }
+  let _ = tokio::time::timeout(Duration::from_secs(10), ctx.term()).await;
+}
+
 fn main() {
   let args = Args::parse();
   util::install_panic_watch();
@@ -637,6 +706,9 @@ fn main() {
       }
       for (tr, to) in [(Transport::Tcp, 1500), (Transport::Ipc, 800), (Transport::Tcp, 300)] {
         rt.block_on(parked_reply_case(&mut rep, tr, to));
+      }
+      for (tr, to) in [(Transport::Inproc, 0), (Transport::Inproc, 20), (Transport::Tcp, 0), (Transport::Ipc, 20)] {
+        rt.block_on(refused_send_case(&mut rep, tr, to));
       }
       util::cleanup_ipc_dir();
     }
